@@ -20,7 +20,8 @@ def plain(v):
     """Canonical python value for a (possibly numpy) scalar."""
     if isinstance(v, np.generic):
         v = v.item()
-    if isinstance(v, float) and v == int(v) and abs(v) < 2**53:
+    if isinstance(v, float) and math.isfinite(v) and v == int(v) \
+            and abs(v) < 2**53:
         # 1.0 and 1 are the same label (hash-equal); canonicalise
         return int(v)
     if isinstance(v, bool):
